@@ -181,9 +181,10 @@ O8 == Plus(T0, TF)                                    \* t0 and tf
 Q1 == Plus(Sq(X(1)), Times(U(1), Tm))                 \* integrand: nonlinear, time dependent
 Q2 == Times(X(1), U(1))
 
-ObjIds == {"o1", "o2", "o3", "o4", "o5", "o6", "o7", "o8"}
+O9 == SumE(Times(Off(X(1), 1), U(1)))                 \* next() inside a sum: node k+1 for every interval k
+ObjIds == {"o1", "o2", "o3", "o4", "o5", "o6", "o7", "o8", "o9"}
 ObjOf(id) == CASE id = "o1" -> O1 [] id = "o2" -> O2 [] id = "o3" -> O3 [] id = "o4" -> O4
-               [] id = "o5" -> O5 [] id = "o6" -> O6 [] id = "o7" -> O7 [] id = "o8" -> O8
+               [] id = "o5" -> O5 [] id = "o6" -> O6 [] id = "o7" -> O7 [] id = "o8" -> O8 [] id = "o9" -> O9
 
 RRead(tag, e, refine) == [tag |-> tag, kind |-> "refine", e |-> e, grid |-> "integrator", refine |-> refine]
 SRead(tag, e, tq) == [tag |-> tag, kind |-> "sampler", e |-> e, grid |-> "", refine |-> 0, tq |-> tq]
